@@ -53,11 +53,12 @@ GLM_FUNC_QUALIFIER glm_vec4 glm_vec1_dot(glm_vec4 v1, glm_vec4 v2)
 		glm_vec4 const had1 = _mm_hadd_ps(had0, had0);
 		return had1;
 #	else
+		// (x + y) + (z + w): the summation order of the generic code, of glm_vec4_dot and of the SSE3 / AVX branches above
 		glm_vec4 const mul0 = _mm_mul_ps(v1, v2);
-		glm_vec4 const mov0 = _mm_movehl_ps(mul0, mul0);
-		glm_vec4 const add0 = _mm_add_ps(mov0, mul0);
-		glm_vec4 const swp1 = _mm_shuffle_ps(add0, add0, 1);
-		glm_vec4 const add1 = _mm_add_ss(add0, swp1);
+		glm_vec4 const swp0 = _mm_shuffle_ps(mul0, mul0, _MM_SHUFFLE(2, 3, 0, 1));
+		glm_vec4 const add0 = _mm_add_ps(mul0, swp0);
+		glm_vec4 const mov0 = _mm_movehl_ps(add0, add0);
+		glm_vec4 const add1 = _mm_add_ss(add0, mov0);
 		return add1;
 #	endif
 }
